@@ -1124,22 +1124,24 @@ impl TypeSpace {
 
         // See if the value bounds fit within a known type.
         let maybe_type = match (min, max) {
-            (None, Some(max)) => formats.iter().rev().find_map(|(_, ty, _nz_ty, _, imax)| {
-                if (imax - max).abs() <= f64::EPSILON {
-                    Some(ty.to_string())
-                } else {
-                    None
-                }
-            }),
-            (Some(min), None) => formats.iter().rev().find_map(|(_, ty, nz_ty, imin, _)| {
-                if min == 1. {
-                    Some(nz_ty.to_string())
-                } else if (imin - min).abs() <= f64::EPSILON {
-                    Some(ty.to_string())
-                } else {
-                    None
-                }
-            }),
+            // Without a lower bound every negative value is permitted; no
+            // type narrower than the fallback can hold them all.
+            (None, Some(_)) => None,
+            // Without an upper bound only the 64-bit types can hold every
+            // permitted value.
+            (Some(min), None) => formats
+                .iter()
+                .rev()
+                .filter(|(_, _, _, _, imax)| *imax >= i64::MAX as f64)
+                .find_map(|(_, ty, nz_ty, imin, _)| {
+                    if min == 1. {
+                        Some(nz_ty.to_string())
+                    } else if (imin - min).abs() <= f64::EPSILON {
+                        Some(ty.to_string())
+                    } else {
+                        None
+                    }
+                }),
             (Some(min), Some(max)) => {
                 formats.iter().rev().find_map(|(_, ty, nz_ty, imin, imax)| {
                     if min == 1. {
